@@ -1,91 +1,115 @@
 (* C12 — Implicit conversion is consistent, order-independent and weaker than casting.
-   Model: Model/TyRel.v (transcription of hir::common::Ty's relations).  Every theorem
-   quantifies over ALL types of the nested inductive [ty]; no pool, no size bound. *)
+   Model: Model/TyRel.v (transcription of hir::common::Ty's relations), parametrised by the
+   record [fixes]: [no_fixes] is the code of the pinned commit, a flag that is on mirrors
+   the corresponding `fix:` patch.  Every theorem quantifies over ALL types of the nested
+   inductive [ty] and over every combination of fixes; no pool, no size bound. *)
 From Capy Require Import Common.Util Common.Ty Model.TyRel Model.ExpectMatch Spec.TyLaws.
 From Capy Require Import Proofs.TyRelBasics Proofs.TyRelWeak Proofs.TyRelMax Proofs.TyRelMaxAccepts
   Proofs.TyRelMaxOrder Proofs.TyRelWitness.
 
 (* a value of type A is accepted where A is expected *)
-Theorem C12_fit_refl : forall a, fit a a = true.
+Theorem C12_fit_refl : forall fx a, fit fx a a = true.
 Proof. exact fit_refl. Qed.
 Print Assumptions C12_fit_refl.
 
 (* implicitly accepted => explicit cast accepted *)
-Theorem C12_fit_implies_cast : forall a b, fit a b = true -> cast a b = true.
+Theorem C12_fit_implies_cast : forall fx a b, fit fx a b = true -> cast fx a b = true.
 Proof. exact fit_implies_cast. Qed.
 Print Assumptions C12_fit_implies_cast.
 
-(* weak-replaceable => implicitly accepted: full statement, refuted on the faithful model *)
-Definition C12_weak_implies_fit_full : Prop :=
-  forall a e, WfTy a -> WfTy e -> nodup_names a = true -> nodup_names e = true ->
-              weak a e = true -> fit a e = true.
-Theorem C12_weak_implies_fit_full_refuted : ~ C12_weak_implies_fit_full.
+(* weak-replaceable => implicitly accepted *)
+Definition C12_weak_implies_fit_full (fx : fixes) : Prop :=
+  forall a e, nodup_names e = true -> weak fx a e = true -> fit fx a e = true.
+
+(* history: false of the pinned code (finding C12-1) *)
+Theorem C12_weak_implies_fit_full_refuted : ~ C12_weak_implies_fit_full no_fixes.
 Proof. exact weak_implies_fit_refuted. Qed.
 Print Assumptions C12_weak_implies_fit_full_refuted.
 
-(* ... and the strongest true statement: it holds for every pair whose found type is
-   outside the known class (an anonymous array whose element type mentions a nominal type) *)
+(* for every variant: it holds outside the known class (empty when the C12-1 fix is on) *)
 Theorem C12_weak_implies_fit_except_known :
-  forall e a, known_weak_fit a = false -> nodup_names e = true ->
-              weak a e = true -> fit a e = true.
+  forall fx e a, known_weak_fit fx a = false -> nodup_names e = true ->
+                 weak fx a e = true -> fit fx a e = true.
 Proof. exact weak_implies_fit_except_lem. Qed.
 Print Assumptions C12_weak_implies_fit_except_known.
 
+(* with the C12-1 fix: in full *)
+Theorem C12_weak_implies_fit_full_fixed :
+  forall fx, fx_weak_nominal fx = true -> C12_weak_implies_fit_full fx.
+Proof. exact weak_implies_fit_fixed. Qed.
+Print Assumptions C12_weak_implies_fit_full_fixed.
+
 (* the struct arm of is_weak_replaceable_by (a call on the same pair) was unfolded in the
    model; this is the statement that the unfolding is the call *)
-Theorem C12_weak_struct_arm_is_fit : forall a u ems,
+Theorem C12_weak_struct_arm_is_fit : forall fx a u ems,
   (match a with Struct _ _ | AnonStruct _ => true | _ => false end) = true ->
-  weak a (Struct u ems) = fit a (Struct u ems).
+  weak fx a (Struct u ems) = fit fx a (Struct u ems).
 Proof. exact weak_struct_is_fit. Qed.
 Print Assumptions C12_weak_struct_arm_is_fit.
 
 (* max never panics when the enums of compared variants are registered *)
-Theorem C12_max_no_crash : forall m a, registered m a = true -> forall b, no_crash (tmax m a b).
+Theorem C12_max_no_crash :
+  forall fx m a, registered m a = true -> forall b, no_crash (tmax fx m a b).
 Proof. exact max_no_crash_lem. Qed.
 Print Assumptions C12_max_no_crash.
 
-(* the common type accepts both operands: full statement, refuted (max's distinct arms) *)
-Definition C12_max_accepts_both_full : Prop :=
-  forall m a b c, WfTy a -> WfTy b -> value_ty a = true -> value_ty b = true ->
-                  tmax m a b = Ok (Some c) -> accepts a c && accepts b c = true.
-Theorem C12_max_accepts_both_full_refuted : ~ C12_max_accepts_both_full.
+(* the common type accepts both operands *)
+Definition C12_max_accepts_both_full (fx : fixes) : Prop :=
+  forall m a b c, wf_enum_map m -> tmax fx m a b = Ok (Some c) -> max_accepts fx false a b c = true.
+
+(* history: false of the pinned code (finding C12-2, max's distinct arms) *)
+Theorem C12_max_accepts_both_full_refuted : ~ C12_max_accepts_both_full no_fixes.
 Proof. exact max_accepts_both_refuted. Qed.
 Print Assumptions C12_max_accepts_both_full_refuted.
 
-(* ... and the strongest true statement: outside the exact classes of [known_max] the common
-   type accepts both operands ([max_accepts]: can_fit_into below a sum, expect_match's
-   acceptance at the top level), for all types and every well-formed ENUM_MAP *)
+(* still false with every fix candidate applied (finding C12-3 stays open) *)
+Theorem C12_max_accepts_both_full_refuted_all_fixes : ~ C12_max_accepts_both_full all_fixes.
+Proof. exact max_accepts_both_refuted_all_fixes. Qed.
+Print Assumptions C12_max_accepts_both_full_refuted_all_fixes.
+
+(* for every variant: outside the exact classes of [known_max] the common type accepts both
+   operands ([max_accepts]: can_fit_into below a sum, expect_match's acceptance at the top) *)
 Theorem C12_max_accepts_both_except_known :
-  forall m, wf_enum_map m -> forall a depth b c,
-    known_max depth a b = 0%N -> tmax m a b = Ok (Some c) -> max_accepts depth a b c = true.
+  forall fx m, wf_enum_map m -> forall a depth b c,
+    known_max fx depth a b = 0%N -> tmax fx m a b = Ok (Some c) -> max_accepts fx depth a b c = true.
 Proof. exact max_accepts_lem. Qed.
 Print Assumptions C12_max_accepts_both_except_known.
 
+(* with the C12-2 fix, class 1 (the distinct arms) is empty: only class 2 (C12-3) remains *)
+Theorem C12_max_distinct_class_empty_fixed :
+  forall fx, fx_max_distinct fx = true -> forall a b, known_max_distinct fx a b = false.
+Proof. exact known_max_distinct_fixed. Qed.
+Print Assumptions C12_max_distinct_class_empty_fixed.
+
 (* the common type does not depend on the order of the operands, outside [known_order] *)
 Theorem C12_max_order_independent_except_known :
-  forall m a b, known_order a b = false -> tmax m a b = tmax m b a.
+  forall fx m a b, known_order a b = false -> tmax fx m a b = tmax fx m b a.
 Proof. exact max_order_lem. Qed.
 Print Assumptions C12_max_order_independent_except_known.
 
 (* order independence fails only through the placeholder types Unknown / AlwaysJumps *)
-Definition C12_max_order_full : Prop := forall m a b, tmax m a b = tmax m b a.
-Theorem C12_max_order_full_refuted : ~ C12_max_order_full.
+Definition C12_max_order_full (fx : fixes) : Prop := forall m a b, tmax fx m a b = tmax fx m b a.
+Theorem C12_max_order_full_refuted : forall fx, ~ C12_max_order_full fx.
 Proof. exact max_order_refuted. Qed.
 Print Assumptions C12_max_order_full_refuted.
 
 (* hypotheses are satisfiable on non-trivial inputs *)
 Example C12_ex_weak_fit :
   let a := AnonArray 2 (IInt 0) in let e := Array 2 (Distinct 7 (IInt 32)) in
-  known_weak_fit a = false /\ weak a e = true /\ fit a e = true /\ cast a e = true.
+  known_weak_fit no_fixes a = false /\ weak no_fixes a e = true /\ fit no_fixes a e = true
+  /\ cast no_fixes a e = true.
 Proof. vm_compute. auto. Qed.
 Example C12_ex_max :
-  tmax [] (Optional (IInt 16)) (IInt 0) = Ok (Some (Optional (IInt 16))).
+  tmax no_fixes [] (Optional (IInt 16)) (IInt 0) = Ok (Some (Optional (IInt 16))).
 Proof. vm_compute. reflexivity. Qed.
 Example C12_ex_max_hyps :
   let a := Optional (Distinct 1 (IInt 32)) in let b := Optional (IInt 0) in
-  known_max false a b = 0%N /\ known_order a b = false /\
-  tmax [] a b = Ok (Some (Optional (Distinct 1 (IInt 32)))).
+  known_max no_fixes false a b = 0%N /\ known_order a b = false /\
+  tmax no_fixes [] a b = Ok (Some (Optional (Distinct 1 (IInt 32)))).
 Proof. vm_compute. auto. Qed.
 Example C12_ex_known_max :
-  known_max false (Optional (Distinct 1 (IInt 32))) (Distinct 1 (IInt 32)) = 1%N.
-Proof. vm_compute. reflexivity. Qed.
+  known_max no_fixes false (Optional (Distinct 1 (IInt 32))) (Distinct 1 (IInt 32)) = 1%N /\
+  known_max all_fixes false (Optional (Distinct 1 (IInt 32))) (Distinct 1 (IInt 32)) = 0%N /\
+  tmax all_fixes [] (Optional (Distinct 1 (IInt 32))) (Distinct 1 (IInt 32))
+    = Ok (Some (Optional (Distinct 1 (IInt 32)))).
+Proof. vm_compute. auto. Qed.
